@@ -458,3 +458,67 @@ pub fn withline(output: &str) -> std::io::Result<i32> {
     out.flush()?;
     Ok(0)
 }
+
+/// C01 "at the latest when a flush() called afterwards returns", with the flush() overlapping another
+/// collector cycle that has already drained the queues: the first flush() is held inside report(); a
+/// span finishes meanwhile; a second flush() is called and must deliver it before it returns.
+pub fn overlap(output: &str) -> std::io::Result<i32> {
+    let s = shared();
+    s.free.store(true, Ordering::SeqCst);
+    verif::set_manual(false);
+    rt::install_hooks();
+    fastrace::set_reporter(rt::CapturingReporter, fastrace::collector::Config::default().report_interval(Duration::from_secs(3600)));
+    std::thread::sleep(Duration::from_millis(300));
+    rt::take_log();
+    let rc = Arc::new(RunCtx::new(7));
+    emit(json!({"ev":"reset","run":0,"cfg":{"cancelable":false,"enabled":true,"ready":true,"queue":10240,"stack":4096,"ring":10240,"foreign":[],"free":true}}));
+    rt::ME.with(|m| m.set(Some(1)));
+    emit(json!({"ev":"spawn","t":1}));
+    let mut me = Actor { t: 1 };
+    exec(&mut me, &rc, &json!({"ev":"call","t":1,"op":"root","h":101,"tr":1,"smp":true}));
+    exec(&mut me, &rc, &json!({"ev":"call","t":1,"op":"drop","h":101}));
+    s.report_gate.store(true, Ordering::SeqCst);
+    let flush_on = |t: usize| {
+        std::thread::spawn(move || {
+            emit(json!({"ev":"call","t":t,"op":"flush"}));
+            fastrace::flush();
+            emit(json!({"ev":"ret","t":t,"op":"flush"}));
+        })
+    };
+    let f1 = flush_on(2);
+    // until the first cycle is inside report()
+    let deadline = std::time::Instant::now() + Duration::from_secs(5);
+    while !s.in_report.load(Ordering::SeqCst) && std::time::Instant::now() < deadline {
+        std::thread::sleep(Duration::from_micros(200));
+    }
+    exec(&mut me, &rc, &json!({"ev":"call","t":1,"op":"root","h":102,"tr":2,"smp":true}));
+    exec(&mut me, &rc, &json!({"ev":"call","t":1,"op":"drop","h":102}));
+    let f2 = flush_on(3);
+    std::thread::sleep(Duration::from_millis(50));
+    s.report_gate.store(false, Ordering::SeqCst);
+    let mut hung = false;
+    for f in [f1, f2] {
+        let deadline = std::time::Instant::now() + Duration::from_secs(10);
+        while !f.is_finished() && std::time::Instant::now() < deadline {
+            std::thread::sleep(Duration::from_millis(1));
+        }
+        if f.is_finished() {
+            let _ = f.join();
+        } else {
+            hung = true;
+        }
+    }
+    if hung {
+        emit(json!({"ev":"hang","who":"flush() overlapping another cycle"}));
+    } else {
+        fastrace::flush();
+    }
+    emit(json!({"ev":"end","run":0,"misses":0,"hung":hung}));
+    let mut out = std::io::BufWriter::new(std::fs::File::create(output)?);
+    for l in rt::take_log() {
+        out.write_all(l.as_bytes())?;
+        out.write_all(b"\n")?;
+    }
+    out.flush()?;
+    Ok(0)
+}
